@@ -33,6 +33,11 @@ var configCmd = &cobra.Command{
 			// an empty section would be written as '[]', which no command can load any more
 			return ErrInvalidArgs
 		}
+		// one line of the file holds one key and its value: a line break would start another line, a key
+		// with '=' or with blanks at its ends would be read back as another key
+		if strings.ContainsAny(args[0]+args[1], "\n\r") || strings.Contains(dotSplit[1], "=") || strings.TrimSpace(dotSplit[1]) != dotSplit[1] {
+			return ErrInvalidArgs
+		}
 
 		// get global flag
 		isGlobal, err := cmd.Flags().GetBool("global")
